@@ -72,11 +72,24 @@ def rule_wire(ctx) -> None:
         "binary_image_start = image_array_entry._image_offset" in t and "image_array_entry.image = data[binary_image_start:binary_image_end]" in t
     ctx.chk.decide(ok, "C06.wire", pa.qual + " layout", "signature block at the header's offset, entry i at header + i*entry size, image bytes at the entry's container-relative offset", t[:200], "", A.loc(CNT, pa.node))
     ex = ctx.own(CNT, "AHABContainer", "export")
-    t = norm(ex.node)
-    ok = "container_header_only = super()._export()" in t and "for image_array_entry in self.image_array: container_header_only += image_array_entry.export()" in t.replace("\n", " ").replace("    ", "") and \
-        "container_header[:self._signature_block_offset] = container_header_only" in t and \
-        "container_header[self._signature_block_offset:self._signature_block_offset + align(len(self.signature_block), CONTAINER_ALIGNMENT)] = self.signature_block.export()" in t
-    ctx.chk.decide(ok, "C06.wire", ex.qual + " layout", "header, then the image array entries, then the signature block at _signature_block_offset", t[:300], "", A.loc(CNT, ex.node))
+    from ..engines import bytelayout
+    fold = lambda e: ctx.prog.fold(e, ex.module, ex.cls)  # noqa: E731
+    wins = []
+    for st in A.walk_no_nested(ex.node):
+        if isinstance(st, ast.Assign) and isinstance(st.targets[0], ast.Subscript) and isinstance(st.targets[0].slice, ast.Slice) and norm(st.targets[0].value) == "container_header":
+            sl = st.targets[0].slice
+            lo = norm(A.inline_locals(ex.node, sl.lower)) if sl.lower is not None else "0"
+            hi = norm(A.inline_locals(ex.node, sl.upper)) if sl.upper is not None else None
+            guard = [norm(a.test) for a in A.ancestors(st) if isinstance(a, ast.If)]
+            wins.append((lo, hi, st.value, guard))
+    hdr = [w for w in wins if w[0] == "0"]
+    sb = [w for w in wins if w[0] != "0"]
+    hdr_lay = bytelayout.normal_form(fold, ex.node, hdr[0][2]) if len(hdr) == 1 else None
+    ok = len(hdr) == 1 and hdr[0][1] == "self._signature_block_offset" and hdr_lay == [(None, "bytes", "super()._export()"), (None, "repeat", "_.export() for _ in self.image_array")] and \
+        len(sb) == 1 and sb[0][0] == "self._signature_block_offset" and sb[0][1] == "self._signature_block_offset + align(len(self.signature_block), CONTAINER_ALIGNMENT)" and \
+        norm(sb[0][2]) == "self.signature_block.export()" and sb[0][3] == ["self.signature_block"]
+    ctx.chk.decide(ok, "C06.wire", ex.qual + " layout", "header, then the image array entries, written to [0 : signature block offset]; the signature block at [offset : offset + aligned length] when present",
+                   f"header window {[(w[0], w[1]) for w in hdr]} layout {hdr_lay}; signature block window {[(w[0], w[1], norm(w[2]), w[3]) for w in sb]}", "", A.loc(CNT, ex.node))
     # certificate: exported bytes = signed bytes + signatures
     ce = ctx.own(CERT, "AhabCertificate", "export")
     body = [norm(s) for s in A.body_of(ce.node) if not (isinstance(s, ast.Expr) and isinstance(s.value, ast.Constant))]
@@ -721,8 +734,12 @@ def rule_srk(ctx) -> None:
     t = norm(fa.node)
     chk.decide("data = self._srk_tables[srk_id].export()" in t and "return get_hash(data=data, algorithm=EnumHashAlgorithm.SHA512)" in t, "C06.srk-hash", fa.qual, "table array: SHA-512 over the exported table srk_id (same as SRKTableV2)", t[:200], "", A.loc(SRK, fa.node))
     ex = ctx.own(SRK, "SRKTable", "export")
-    t = norm(ex.node)
-    chk.decide("data = pack(self.format(), self.tag, self.length, self.version)" in t and "data += srk_record.export()" in t, "C06.srk-hash", ex.qual, "exported table = header followed by every record", t[:200], "", A.loc(SRK, ex.node))
+    from ..engines import bytelayout
+    lay = bytelayout.normal_form(lambda e: prog.fold(e, ex.module, ex.cls), ex.node)
+    want_tail = (None, "repeat", "_.export() for _ in self.srk_records")
+    hdr_srcs = [d[3] for d in (lay or [])[:-1] if d[1] == "int"] + [f"{d[0]}B const" for d in (lay or [])[:-1] if d[1] == "const"]
+    chk.decide(bool(lay) and lay[-1] == want_tail and [d[3] for d in lay[:-1] if d[1] == "int"] == ["self.tag", "self.length", "self.version"], "C06.srk-hash", ex.qual,
+               "exported table = header (tag, length, version) followed by every record", f"layout {lay}", "", A.loc(SRK, ex.node))
     gh = ctx.own(CNT, "AHABContainerBase", "get_srk_hash")
     chk.decide("return self.signature_block.srk_assets.compute_srk_hash(srk_id)" in norm(gh.node), "C06.srk-hash", gh.qual, "the container's SRK hash is the SRK assets' hash", "", "", A.loc(CNT, gh.node))
     vt = ctx.own(SRK, "SRKTable", "verify")
@@ -751,8 +768,11 @@ def rule_srk(ctx) -> None:
     chk.decide("srk_record = cast(SRKRecordV2, srk_tables[i].srk_records[srk_data.srk_id])" in norm(pa.node) and "srk_record.srk_data = srk_data" in norm(pa.node), "C06.srk-tables", pa.qual + " srk_id",
                "the parser attaches the SRK data container to the record named by its srk_id", "", "", A.loc(SRK, pa.node))
     ex = ctx.own(SRK, "SRKTableArray", "export")
-    chk.decide("srk_record = cast(SRKRecordV2, srk_table.srk_records[self.chip_config.used_srk_id])" in norm(ex.node) and "data += srk_record.srk_data.export()" in norm(ex.node), "C06.srk-tables", ex.qual + " srk_id",
-               "the exported SRK data container is the one of the used SRK", "", "", A.loc(SRK, ex.node))
+    from ..engines import bytelayout as _bl
+    lay_a = _bl.normal_form(lambda e: prog.fold(e, ex.module, ex.cls), ex.node)
+    want_rep = (None, "repeat", "_.export() + cast(SRKRecordV2, _.srk_records[self.chip_config.used_srk_id]).srk_data.export() for _ in self._srk_tables")
+    chk.decide(bool(lay_a) and lay_a[-1] == want_rep, "C06.srk-tables", ex.qual + " srk_id",
+               "after the header: for every table, the table followed by the SRK data container of the used SRK", f"layout {lay_a}", f"{want_rep}", A.loc(SRK, ex.node))
     # the key used for verification is the record selected by used_srk_id
     for cn in ("SignatureBlock",):
         f = ctx.own(SB, cn, "verify_container_authenticity")
